@@ -20,6 +20,8 @@ pub mod c03;
 pub mod c11;
 pub mod c07;
 pub mod c08;
+pub mod c16;
+pub mod c09;
 
 /// All harness bodies, for the native replayer.
 pub fn registry() -> Vec<(&'static str, fn())> {
@@ -37,5 +39,7 @@ pub fn registry() -> Vec<(&'static str, fn())> {
     v.extend_from_slice(c11::HARNESSES);
     v.extend_from_slice(c07::HARNESSES);
     v.extend_from_slice(c08::HARNESSES);
+    v.extend_from_slice(c16::HARNESSES);
+    v.extend_from_slice(c09::HARNESSES);
     v
 }
